@@ -1,6 +1,6 @@
 (* C04 — Gherkin parsing is faithful: structure, text, tags, step types and line numbers.
    Statements only; proofs are in theories/GherkinProofs.v. *)
-From BV Require Import Base UStr GherkinTypes Gherkin GherkinProofs GherkinRowProofs GherkinBlockProofs.
+From BV Require Import Base UStr GherkinTypes Gherkin GherkinProofs GherkinRowProofs GherkinBlockProofs GherkinTagProofs.
 From BVGen Require Import GherkinTables.
 
 (* In every one of the languages of behave.i18n, every alias of every structural keyword, written as "<alias>: x", is
@@ -115,6 +115,23 @@ Theorem a_block_of_step_lines_becomes_exactly_those_steps :
     s' = with_steps s (rev (steps_of lines (m_line m)) ++ sc_steps s) /\ f' = with_items f (FScen s' :: rest).
 Proof. exact a_block_of_step_lines_is_read_into_exactly_those_steps. Qed.
 Print Assumptions a_block_of_step_lines_becomes_exactly_those_steps.
+
+(* with tags: any number of tag lines above each scenario (tl: the line, the tag names on it; a
+   trailing comment on a tag line is allowed); every scenario carries exactly the tags written
+   above it, in order, each tag with the number of the line it stands on *)
+Theorem a_feature_of_tagged_scenarios_is_parsed_into_exactly_what_was_written :
+  forall kw code fline falias fname scens,
+  feature_line kw fline falias fname -> Forall (tscen_ok kw) scens ->
+  exists m',
+    fold_left feed (fline :: flat_map tscen_lines scens) (ROk (init_state code kw VFeature StInitial)) = ROk m' /\
+    m_table m' = None /\ m_st m' <> StTaggable /\
+    option_map fin_feature (m_feat m') = Some (mkPFeat falias fname 1 [] [] None (expected_tagged scens 1) code).
+Proof. exact a_feature_of_tagged_scenarios_is_read_back_exactly. Qed.
+Print Assumptions a_feature_of_tagged_scenarios_is_parsed_into_exactly_what_was_written.
+
+Example an_english_tag_line_with_two_tags_and_a_comment :
+  tag_line english [32; 32; 64; 119; 105; 112; 32; 64; 115; 108; 111; 119; 32; 35; 32; 120]%N [[119; 105; 112]; [115; 108; 111; 119]]%N.
+Proof. exact an_english_tag_line. Qed.
 
 (* non-vacuity: a German document with header, tags over two lines with a comment, a background, an outline with examples,
    a doc-string and a table with an escaped pipe, indentation, blank and comment lines *)
